@@ -309,9 +309,13 @@ theorem wf_step (F : Facts cfg) {s : St} (h : WF cfg s) (hnp : NoPend s) (op : O
   | values id => simp only [step]; split <;> exact ⟨h, hnp⟩
   | view v => simp only [step]; split <;> exact ⟨h, hnp⟩
   | own id target => exact wf_stepOwn h hnp id target
-  | sweep victims order => simp only [step]; exact wf_sweep F h victims order
-  | thr victims order => simp only [step]; exact wf_sweep F h victims order
-  | exit order => simp only [step]; split <;> exact ⟨h, hnp⟩
+  | sweep victims order => simp only [step]; split
+                           · exact ⟨h, hnp⟩
+                           · exact wf_sweep F h victims order
+  | thr victims order => simp only [step]; split
+                         · exact ⟨h, hnp⟩
+                         · exact wf_sweep F h victims order
+  | exit order => simp only [step]; exact ⟨h, hnp⟩
   | finish => exact ⟨h, hnp⟩
 
 theorem wf_run (F : Facts cfg) (ops : List Op) : ∀ {s : St}, WF cfg s → NoPend s →
